@@ -96,7 +96,7 @@ def Leaf.c : Leaf → LeafC
 /-! ### `__eq__` -/
 
 def Leaf.beq : Leaf → Leaf → Bool
-  | .single a, .single b => a.name == b.name && a.op == b.op && a.value == b.value
+  | .single a, .single b => a.name == b.name && a.op == b.op && a.value == b.value && a.swapped == b.swapped
   | .amulti n c, .amulti n' c' => n == n' && c == c'
   | .aunion n c, .aunion n' c' => n == n' && c == c'
   | .amulti n c, .aunion n' c' => n == n' && c == c'
